@@ -17,6 +17,7 @@ HARNESS = [("i18ntable/catalog_export.go", "internal/i18n/zz_verif_catalog.go"),
            ("i18ntable/table_test.go", PKG + "/table_test.go")]
 SELFTEST = 10000000
 NEG_CHUNK = 60000
+MANY = 40            # more failures than this of one clause/kind/language are reported as one systemic violation
 JVM = {"JAVA_TOOL_OPTIONS": "-XX:ParallelGCThreads=4"}
 
 
@@ -249,6 +250,26 @@ def run():
         # verdict
         byid = {s["id"]: s for s in sites}
         real = [b for b in bad if b["id"] <= SELFTEST and not issyn(b)]
+        # a systemic failure (one clause failing for very many keys at once, e.g. a broken lookup function) is reported once
+        # per (clause, kind, language) with its size and examples instead of once per key
+        def group_of(key):
+            p_ = key.split("/")
+            if p_[0] == "lookup":
+                return "lookup/%s/*/%s" % (p_[1], p_[-1])
+            if p_[0] == "no-text":
+                return "no-text/%s/*" % p_[1]
+            if p_[0] in ("placeholders", "empty-text"):
+                return "%s/*/%s" % (p_[0], p_[-1])
+            return p_[0] + "/*"
+        groups = {}
+        for b in real:
+            groups.setdefault(group_of(b["key"]), []).append(b)
+        for g, bs in sorted(groups.items()):
+            if len(bs) > MANY:
+                ex_ = sorted(set(b["key"] for b in bs))
+                chk.violation(g, "%d keys fail this clause at once, e.g. %s" % (len(ex_), ex_[:6]),
+                              {"count": len(ex_), "keys": ex_[:200], "first_site": byid.get(sorted(bs, key=lambda b: b["key"])[0]["id"])})
+        real = [b for b in real if len(groups[group_of(b["key"])]) <= MANY]
         for b in sorted(real, key=lambda b: b["key"]):
             key = b["key"]
             if b["id"] in byid:
